@@ -273,8 +273,14 @@ func (g *pgen) step() {
 		g.pushBytes()
 		switch g.r.Intn(4) {
 		case 0:
-			g.pushInt()
-			g.pushInt()
+			if g.r.Intn(3) == 0 { // start + count wraps around int64
+				g.a.int(int64(g.r.Intn(3))).int(1<<63 - 1 - int64(g.r.Intn(2)))
+				g.push('i')
+				g.push('i')
+			} else {
+				g.pushInt()
+				g.pushInt()
+			}
 			g.a.op(vm.SUBSTR)
 			g.pop()
 			g.pop()
